@@ -291,6 +291,7 @@ impl<'a> Parser<'a> {
         next: F,
     ) -> Result<ExpressionList, ParseError<'a>> {
         let first = next(self)?.into();
+        let was_parsing_list = self.parsing_list;
         let rest = if self.parsing_list {
             Vec::new()
         } else {
@@ -309,7 +310,7 @@ impl<'a> Parser<'a> {
             }
             exprs
         };
-        self.parsing_list = false;
+        self.parsing_list = was_parsing_list;
         Ok(ExpressionList { first, rest })
     }
 
